@@ -351,7 +351,7 @@ Section Reader.
     destruct (pend r) as [[c p]|]; [|inversion Hs; subst; exact H].
     assert (H0 : KI pending k {| wfp := wfp r; pfw := pfw r; mvf := mvf r; calls := calls r; pend := None |})
       by (eapply ki_sup; [exact H | auto]).
-    destruct (is_moved_to (k_mask e) && N.eqb (k_cookie e) c); [inversion Hs; subst; exact H0|].
+    destruct (is_moved_to (k_mask e) && N.eqb (k_cookie e) c && amem N.eqb (k_wd e) (pfw r)); [inversion Hs; subst; exact H0|].
     eapply forget_tree_ki; eauto.
   Qed.
 
